@@ -85,7 +85,7 @@ MS(k)  == "M" \o ToString(k)          \* master secret computed in the full hand
 Ids == {"A", "R"} \cup {NId(k) : k \in Conns}
 RogueIds == {"R", "A"}                \* session id in a rogue ServerHello: a new one, or the well-known A
 Secrets == {"SA", "SB", "ST", "E"} \cup {MS(k) : k \in Conns}
-StoreContents == {"empty", "fresh", "stale", "swapped", "ctrunc", "strunc", "sonly"}
+StoreContents == {"empty", "fresh", "stale", "swapped", "ctrunc", "strunc", "sonly", "cempty"}
 Devs == {"none", "sfin", "cfin"}
 Msgs == {"CH", "CHt", "F4b", "F5b", "F4", "F5", "F6", "alertC", "alertS"}
 Lossy == {"CH", "CHt", "F4b", "F5b", "alertC", "alertS"}
@@ -98,9 +98,11 @@ NoRogue == [id |-> None, sec |-> None, side |-> None]
 InitC(n) == CASE n = "empty"   -> EmptySlot
               [] n = "sonly"   -> EmptySlot
               [] n = "ctrunc"  -> [id |-> "A", ms |-> "ST"]
+              [] n = "cempty"  -> [id |-> "A", ms |-> "E"]       \* an entry whose secret is EMPTY (truncated to nothing)
               [] OTHER         -> [id |-> "A", ms |-> "SA"]
 InitS(n) == CASE n = "empty"   -> NoServerStore
               [] n = "stale"   -> NoServerStore
+              [] n = "cempty"  -> NoServerStore
               [] n = "swapped" -> [NoServerStore EXCEPT !["A"] = "SB"]
               [] n = "strunc"  -> [NoServerStore EXCEPT !["A"] = "ST"]
               [] OTHER         -> [NoServerStore EXCEPT !["A"] = "SA"]
